@@ -18,7 +18,7 @@ type c08 struct{}
 func (c08) ID() string    { return "C08" }
 func (c08) Level() string { return "exploration" }
 func (c08) Rule() string {
-	return "shape: in each of the three full corpus documents EVERY scalar leaf in turn is replaced by ${V}, ${UNSET:-literal} and (strings) pre${V}post with the matching environment and the result compared with the literal document; mapping keys containing ${V} stay literal; every document with $ doubled and interpolation on equals the document with interpolation off. types: every typed position of the schema below services/networks/volumes/secrets/configs (boolean, integer, number; read from /repo/schema/compose-spec.json at run time) that admits a string, plus duration and byte-size attributes, x valid texts (incl. YAML-1.1 booleans) x invalid texts: the variable form gives the literal's typed value, an invalid text is an error naming the attribute. distinct = distinct (position, form) pairs"
+	return "shape: in each of the three full corpus documents EVERY scalar leaf in turn is replaced by ${V}, ${UNSET:-literal} and (strings) pre${V}post with the matching environment and the result compared with the literal document; mapping keys containing ${V} stay literal; every document with $ doubled and interpolation on equals the document with interpolation off. types: every typed position of the schema below services/networks/volumes/secrets/configs (boolean, integer, number; read from /repo/schema/compose-spec.json at run time) that admits a string, under three shapes of the user-defined name (plain, x-prefixed, dotted), plus duration and byte-size attributes, x valid texts (incl. YAML-1.1 booleans) x invalid texts: the variable form gives the literal's typed value, an invalid text is an error naming the attribute. distinct = distinct (position, form) pairs"
 }
 func (c08) Assumptions() []string {
 	return []string{
@@ -236,7 +236,14 @@ func c08types(c *core.Ctx, sch *schemagen.Schema) {
 		kind string // boolean | integer | number
 	}
 	var positions []pos
-	for _, root := range [][]string{{"services", "s"}, {"networks", "n"}, {"volumes", "v"}, {"secrets", "x"}, {"configs", "x"}} {
+	// user-defined names come in several shapes: plain, looking like an extension key, containing the path separator
+	var roots [][]string
+	for _, shape := range []string{"%s", "x-%s", "%s.v2"} {
+		for _, r := range [][2]string{{"services", "s"}, {"networks", "n"}, {"volumes", "v"}, {"secrets", "x"}, {"configs", "x"}} {
+			roots = append(roots, []string{r[0], fmt.Sprintf(shape, r[1])})
+		}
+	}
+	for _, root := range roots {
 		for _, p := range sch.Paths(root, "key", 8) {
 			t := sch.Types(p)
 			if !t["string"] || t["null"] || p[len(p)-1] == "key" || p[len(p)-1] == "[]" {
@@ -370,7 +377,11 @@ func c08types(c *core.Ctx, sch *schemagen.Schema) {
 
 // c08docFor builds a minimal document with "@@" at the given schema path.
 func c08docFor(path []string) (string, bool) {
-	doc := map[string]any{"services": map[string]any{"s": map[string]any{"image": "i"}}}
+	svcName := "s"
+	if path[0] == "services" {
+		svcName = path[1]
+	}
+	doc := map[string]any{"services": map[string]any{svcName: map[string]any{"image": "i"}}}
 	var cur any = doc
 	var setParent func(any)
 	for i, k := range path {
@@ -403,7 +414,7 @@ func c08docFor(path []string) (string, bool) {
 	}
 	_ = setParent
 	// required companions
-	svc := doc["services"].(map[string]any)["s"].(map[string]any)
+	svc := doc["services"].(map[string]any)[svcName].(map[string]any)
 	if b, ok := svc["build"].(map[string]any); ok {
 		if _, ok := b["context"]; !ok {
 			b["context"] = "."
